@@ -8,7 +8,7 @@ import gen
 RULE = ('cases = (cost dict, disjoint worker groups, world, colocate) on the real static method '
         'KAISAAssignment.greedy_assignment; returned dict compared for equality with the Lean model; '
         'non-trivial = ≥2 layers and ≥2 workers; distinct = distinct canonical (work,groups,colocate)'
-        '; order-independent checks through the public KAISAAssignment class (completeness, confinement to the reported gradient-worker group, co-location)')
+        '; order-independent checks through the public KAISAAssignment class (completeness, confinement to the reported gradient-worker group, co-location, in-group balance of non-co-located placements)')
 TRUSTED = [
     'Lean 4.33 kernel; axioms audited ⊆ {propext, Classical.choice, Quot.sound}',
     'hand-written model KV.Kaisa.greedy tied to KAISAAssignment.greedy_assignment by this correspondence',
@@ -200,6 +200,22 @@ def run(ctx):
                 if any(a.inv_worker(l, f) not in g for f in work[l]) or len(g) != k:
                     ctx.fail(f'a factor of layer {l} is inverted outside the layer\'s gradient-worker group {sorted(g)}', case, 'kaisa-confined')
                     break
+            if not col and k > 1:
+                # placed factor by factor on the least-loaded worker of the group: inside every gradient-worker group the
+                # loads of two workers never differ by more than the largest single factor placed in that group
+                loads, biggest = {}, {}
+                for l in work:
+                    g = tuple(sorted(a.grad_worker_group(l)))
+                    for r_ in g:
+                        loads.setdefault(g, {}).setdefault(r_, 0)
+                    for f, c_ in work[l].items():
+                        loads[g][a.inv_worker(l, f)] = loads[g].get(a.inv_worker(l, f), 0) + c_
+                        biggest[g] = max(biggest.get(g, 0), c_)
+                for g, ld in loads.items():
+                    if max(ld.values()) - min(ld.values()) > biggest.get(g, 0):
+                        ctx.fail(f'factors not co-located, yet inside gradient-worker group {list(g)} the worker loads {ld} differ by more '
+                                 f'than the largest factor ({biggest.get(g, 0)}): not a least-loaded placement', case, 'kaisa-balance')
+                        break
         except Exception as e:  # noqa: BLE001
             ctx.fail(f'KAISAAssignment raised {type(e).__name__}: {e}', case, 'kaisa-raised')
         ctx.evaluations += 1
